@@ -60,10 +60,11 @@ fn all_families() -> Vec<Box<dyn Family>> {
 }
 
 fn all_families_base() -> Vec<Box<dyn Family>> {
-  vec![Box::new(c08::C08), Box::new(c18::C18), Box::new(c09::C09), Box::new(c12::C12), Box::new(thr_ops::C19Ops), Box::new(thr_ops::C19Subjects), Box::new(thr_ops::C11), Box::new(timed::C16), Box::new(timed::C15), Box::new(c01::C01), Box::new(c05::C05Seq), Box::new(c05::C05Thr), Box::new(c06::C06), Box::new(c06::C06Thr), Box::new(c17::C17), Box::new(c14::C14), Box::new(c14::C14Shared), Box::new(c10::C10), Box::new(c13::C13), Box::new(c13::C13Thr), Box::new(c13::C13Reg), Box::new(c03::C03), Box::new(c03::C03Rsg), Box::new(c04::C04Travel), Box::new(c04::C04Handlers),
+  vec![Box::new(c08::C08), Box::new(c18::C18), Box::new(c09::C09), Box::new(c12::C12), Box::new(thr_ops::C19Ops), Box::new(thr_ops::C19Subjects), Box::new(thr_ops::C11), Box::new(timed::C16), Box::new(timed::C15), Box::new(c01::C01), Box::new(c05::C05Seq), Box::new(c05::C05Thr), Box::new(c06::C06), Box::new(c06::C06Thr), Box::new(c17::C17), Box::new(c14::C14), Box::new(c14::C14Shared), Box::new(c14::C14Thr), Box::new(c10::C10), Box::new(c13::C13), Box::new(c13::C13Thr), Box::new(c13::C13Reg), Box::new(c03::C03), Box::new(c03::C03Rsg), Box::new(c04::C04Travel), Box::new(c04::C04Handlers),
     Box::new(Only { inner: Box::new(thr_ops::C11), name: "c03-amb-threads", pred: |w| w.s("op") == "amb" }),
     Box::new(Only { inner: Box::new(c12::C12), name: "c10-subjects-threads", pred: |_| true }),
     Box::new(Only { inner: Box::new(thr_ops::C19Ops), name: "c04-error-races-completion", pred: |_| true }),
+    Box::new(Only { inner: Box::new(c13::C13Reg), name: "c10-replay-subscriber-leaves-while-registering", pred: |w| w.s("kind") == "replay" }),
     Box::new(Only { inner: Box::new(thr_ops::C19Subjects), name: "c01-illformed-source-two-threads", pred: |_| true }),
     Box::new(Only { inner: Box::new(thr_ops::C19Ops), name: "c01-racing-terminals-behind-operators", pred: |_| true })]
 }
@@ -222,6 +223,9 @@ fn spec_for(prop: &str) -> Option<CheckSpec> {
         // "a ReplaySubject first hands a new subscriber every past item in order followed by the stored
         // terminal" also while another thread pushes / completes during the hand-over
         FamilySpec { fam: Box::new(Only { inner: Box::new(c12::C12), name: "c10-subjects-threads", pred: |_| true }), quick_runs: 40_000, thorough_runs: 800_000 },
+        // "holds no observer after that observer unsubscribed" when the observer leaves while the
+        // ReplaySubject (inside replay()) is still registering it
+        FamilySpec { fam: Box::new(Only { inner: Box::new(c13::C13Reg), name: "c10-replay-subscriber-leaves-while-registering", pred: |w| w.s("kind") == "replay" }), quick_runs: 6_000, thorough_runs: 30_000 },
       ],
       quick_cap_s: 60,
       thorough_cap_s: 900,
@@ -283,6 +287,8 @@ fn spec_for(prop: &str) -> Option<CheckSpec> {
         FamilySpec { fam: Box::new(c14::C14), quick_runs: 200_000, thorough_runs: 3_000_000 },
         // a second subscription started mid-stream of a cold synchronous source, also behind ref_count / replay
         FamilySpec { fam: Box::new(c14::C14Shared), quick_runs: 12_000, thorough_runs: 60_000 },
+        // the same Observable value subscribed by several threads at once
+        FamilySpec { fam: Box::new(c14::C14Thr), quick_runs: 30_000, thorough_runs: 600_000 },
       ],
       quick_cap_s: 60,
       thorough_cap_s: 900,
